@@ -20,6 +20,7 @@ mod p11;
 mod p12;
 mod p13;
 mod p16;
+mod p17;
 mod p18;
 mod p19;
 mod refimpl;
@@ -51,6 +52,7 @@ macro_rules! dispatch {
             "C12" => $f::<p12::C12>($($arg),*),
             "C13" => $f::<p13::C13>($($arg),*),
             "C16" => $f::<p16::C16>($($arg),*),
+            "C17" => $f::<p17::C17>($($arg),*),
             "C18" => $f::<p18::C18>($($arg),*),
             "C19" => $f::<p19::C19>($($arg),*),
             #[cfg(lzma_rust2_verif_shuttle)]
